@@ -118,6 +118,36 @@ Proof.
     cbn [nd_run]. cbn [fst] in H. rewrite (H s b b2 Pa). apply IH; assumption.
 Qed.
 
+(* ---------- cache warmth ---------- *)
+
+(* with a coherent cache every read returns the committed value, whatever the node holds in its cache *)
+Lemma nd_read_warmth_independent : forall warm1 warm2 cache1 cache2 trie,
+  nd_cache_coherent warm1 cache1 trie -> nd_cache_coherent warm2 cache2 trie ->
+  forall k, nd_read warm1 cache1 trie k = nd_read warm2 cache2 trie k.
+Proof.
+  intros warm1 warm2 cache1 cache2 trie C1 C2 k. unfold nd_read.
+  destruct (warm1 k) eqn:W1; destruct (warm2 k) eqn:W2;
+    try rewrite (C1 k W1); try rewrite (C2 k W2); reflexivity.
+Qed.
+
+(* hence a step that only reads through the cache does not depend on the warmth oracle *)
+Lemma nd_step_warmth_independent : forall (S : Type) (step : S -> (Z -> option Z) -> S) warm1 warm2 cache1 cache2 trie,
+  nd_cache_coherent warm1 cache1 trie -> nd_cache_coherent warm2 cache2 trie ->
+  (forall s r r', (forall k, r k = r' k) -> step s r = step s r') ->
+  forall s, step s (nd_read warm1 cache1 trie) = step s (nd_read warm2 cache2 trie).
+Proof.
+  intros S step warm1 warm2 cache1 cache2 trie C1 C2 E s. apply E. intro k.
+  apply nd_read_warmth_independent; assumption.
+Qed.
+
+(* what the coherence rules out: a cache that kept the write of a failed call (nonce 7 recorded by a mint that was
+   rolled back) answers differently from the trie *)
+Lemma nd_incoherent_cache_example :
+  let trie := fun k : Z => None in
+  let cache := fun k : Z => if Z.eqb k 7 then Some 1 else None in
+  nd_read (fun _ => true) cache trie 7 <> nd_read (fun _ => false) cache trie 7.
+Proof. vm_compute. discriminate. Qed.
+
 (* ---------- the generated site table ---------- *)
 
 Lemma nd_all_sites_ok : forallb nd_site_ok gen_nd_sites = true.
